@@ -343,6 +343,32 @@ def carry(cfg):
 _DOC_CACHE = {}
 
 
+def user_call_objects(user_calls):
+    """Call objects for user-written functions (the documented way to run one's own checks)."""
+    from functools import partial
+
+    from ioos_qc.config import Call, Context, tw
+
+    out = []
+    for u in user_calls:
+        w = u.get("window") or {}
+        window = tw(
+            starting=window_value(w.get("starting"), "timestamp", w.get("starting_ns", 0)),
+            ending=window_value(w.get("ending"), "timestamp", w.get("ending_ns", 0)),
+        )
+        out.append(Call(stream_id=u["sid"], call=partial(seams.user_check(u["variant"]), (), tag=u["tag"]), context=Context(window=window)))
+    return out
+
+
+def with_user_calls(cfg, user_calls):
+    """The configuration as the reference model reads it once the user's calls have been added."""
+    extra = [
+        {"window": u.get("window"), "entries": [{"sid": u["sid"], "module": "qartod", "test": "user_check", "params": {"tag": u["tag"]}, "func_variant": u["variant"], "role": "healthy"}]}
+        for u in user_calls
+    ]
+    return dict(cfg, contexts=cfg["contexts"] + extra)
+
+
 def build_config(cfg):
     """Config(...) from the scenario's carrier.  With cfg["share_document"] (dict / odict
     carriers) every Config of the scenario is built from the *same* document object, as a
@@ -381,6 +407,8 @@ def build_config(cfg):
 
 def resolvable(entry):
     """Model of 'the module and the test name are known' (F1/F2 are not)."""
+    if entry.get("func_variant"):
+        return True  # a function object handed over in a Call: nothing to resolve
     if entry["module"] not in KNOWN_MODULES:
         return False
     mod = import_module(f"ioos_qc.{entry['module']}")
@@ -445,8 +473,11 @@ def direct_call(entry, arrays, rows, axes_present=None):
 
     Returns (flags ndarray | None, exception-class-name | None).
     """
-    mod = import_module(f"ioos_qc.{entry['module']}")
-    func = getattr(mod, entry["test"])
+    if entry.get("func_variant"):
+        func = seams.user_check(entry["func_variant"])
+    else:
+        mod = import_module(f"ioos_qc.{entry['module']}")
+        func = getattr(mod, entry["test"])
     kwargs = json.loads(json.dumps(entry["params"])) if entry.get("params") else {}
     kwargs["inp"] = arrays["cols_ext"][entry["sid"]][rows].copy()
     have = axes_present or {
@@ -530,7 +561,7 @@ def make_stream(frontend, tbl):
     raise ValueError(frontend)
 
 
-def run_qcconfig(cfg, tbl, sid):
+def run_qcconfig(cfg, tbl, sid, user_calls=None):
     """The deprecated single-stream front end; returns the dict-form results."""
     import warnings
 
@@ -540,6 +571,8 @@ def run_qcconfig(cfg, tbl, sid):
     with warnings.catch_warnings():
         warnings.simplefilter("ignore", DeprecationWarning)
         qc = QcConfig(carry(cfg), default_stream_key=sid)
+    if user_calls:
+        qc.add(user_call_objects(user_calls))
     kw = {"inp": a["cols"][sid].copy()}
     if a["time"] is not None:
         kw["tinp"] = a["time"].copy()
